@@ -71,6 +71,19 @@ DecMid == {-2, 0, 2}
 DecTwo == {-2, 2}
 DecZero == {0}
 Cap1 == <<1, 1>>
+U(name, tout, cout, tin, cin, kt, kc) == [name |-> name, tout |-> tout, cout |-> cout, tin |-> tin, cin |-> cin, kt |-> kt, kc |-> kc]
+UnitsNone == <<>>
+UnitsA == << U("min-M", "minute", "molar", "minute", "molar", "minute", "molar"),
+             U("ms-mM", "millisecond", "millimolar", "second", "molar", "second", "molar"),
+             U("h-uM", "hour", "micromolar", "minute", "millimolar", "hour", "millimolar"),
+             U("s-mM", "second", "millimolar", "second", "millimolar", "second", "millimolar") >>
+PoolW == <<OHm, Hp, H2O>>
+NH3 == S("NH3", <<<<1, 3>>, <<7, 1>>>>)
+N2 == S("N2", <<<<7, 2>>>>)
+NO == S("NO", <<<<7, 1>>, <<8, 1>>>>)
+PoolNH == <<H2, NH3, N2>>
+PoolPer == <<H2O2, O2, H2O>>
+PoolNOx == <<NO2a, N2O4a, O2, NO>>
 TimesA == <<<<1, 100>>, <<1, 10>>, <<1, 1>>, <<5, 1>>>>
 TolA == [atol |-> <<1, 1000000000>>, rtol |-> <<1, 1000000000>>, guard |-> 200, steprtol |-> <<1, 1000000000>>]
 =============================================================================
